@@ -87,6 +87,12 @@ def explore(run, tier):
             continue
         base = {'cfg': cfg, 'codec': codec, 'hex': hexbm}
         cases.append(dict(base, data=data.hex(), mut='valid'))
+        if hexbm:
+            # the hexadecimal bitmap in CAPITALS, and in mixed case: the same bitmap (hexadecimal text has no case)
+            up = data[:4] + data[4:36].upper() + data[36:]
+            mixed = data[:4] + bytes(b - 32 if (97 <= b <= 102 and i % 2) else b for i, b in enumerate(data[4:36])) + data[36:]
+            cases.append(dict(base, data=up.hex(), mut='valid'))
+            cases.append(dict(base, data=mixed.hex(), mut='valid'))
         pos = c07.positions(data, cdict, codec, hexbm)
         hdr = 36 if hexbm else 20
         alpha = c07.alphabet_bytes(codec) + ['1'.encode(codec)[0], '9'.encode(codec)[0], '3'.encode(codec)[0]]
@@ -165,6 +171,16 @@ def explore(run, tier):
                 cases.append({'cfg': 'pkg', 'codec': codec, 'hex': (k + ci) % 2, 'data': data.hex(), 'mut': 'valid'})
                 cases.append({'cfg': 'pkg', 'codec': codec, 'hex': (k + ci) % 2, 'data': data[:-1].hex(), 'mut': 'truncate'})
     bm = lambda bits: sum(1 << (128 - b) for b in [1] + bits).to_bytes(16, 'big')   # noqa: E731
+    # every variable-length element of the packaged configuration with a declared length of ZERO, alone and followed by
+    # another element: well-framed, accepted, the element present with an empty value (and its derived entries)
+    for b in sorted(int(k) for k, fc in pkg.items() if fc['field_type'] in ('LLVAR', 'LLLVAR')):
+        pl = 2 if pkg[str(b)]['field_type'] == 'LLVAR' else 3
+        for ci, codec in enumerate(['latin_1', 'cp500']):
+            e = lambda t: t.encode(codec)   # noqa: E731
+            cases.append({'cfg': 'pkg', 'codec': codec, 'hex': 0, 'data': (e('1144') + bm([b]) + e('0' * pl)).hex(), 'mut': 'zerolen'})
+            if b < 127:
+                cases.append({'cfg': 'pkg', 'codec': codec, 'hex': 0,
+                              'data': (e('1144') + bm([b, 127]) + e('0' * pl) + e('003abc')).hex(), 'mut': 'zerolen'})
     for data in [b'1144' + bm([2]) + b'-2' + b'1234', b'1144' + bm([2, 3]) + b'-21234', b'1144' + bm([2, 128]) + b'03123',
                  b'1144' + bm([2, 3]) + b'00123456', b'1144' + bm([2]) + b'00', b'1144' + bm([48]) + b'000',
                  b'1144' + bm([2]) + b' 3123', b'1144' + bm([2]) + b'+3123', b'1144' + bm([48]) + b'0_5' + b'00010' * 1,
